@@ -16,7 +16,8 @@ import (
 var i32Vals = []uint32{0, 1, 0x7f, 0x80, 0xff, 0x100, 0x7fffffff, 0x80000000, 0xffffffff, 0x01020304}
 var i64Vals = []uint64{0, 1, 0xff, 0x7fffffff, 0x80000000, 0xffffffff, 0x100000000, 0x7fffffffffffffff, 0x8000000000000000, 0xffffffffffffffff, 0x0102030405060708}
 var str4 = []string{"abc", "héx"[0:3], "\xffz9", "a b"} // 3 bytes + NUL
-var wstr3 = [][]rune{{'a', 'b'}, {'é', '中'}, {0x1F600}}  // 2 units + NUL (the last is a surrogate pair)
+var wstr3 = [][]rune{{'a', 'b'}, {'é', '中'}, {0x1F600}, // 2 units + NUL (the third is a surrogate pair)
+	{0xE9, 0xFC}, {'a', 0xFF}, {0x80, 'z'}, {0x7F, 0x100}, {0xFFFD, 0x00A0}, {0x0100, 0xFF}} // Latin-1 only / mixed widths / boundaries
 
 type wireField struct {
 	t   string
